@@ -315,6 +315,43 @@ def gen(rng, tier):
     st["srv_streams"] += 2
     cases.append(c)
 
+    # --- valid requests cut at EVERY byte position (request line, each header, empty line, each body byte, and the
+    #     same inside the second request of a keep-alive connection): what the dispatch clause is about
+    canon = [
+        b"GET /index.html HTTP/1.1\r\nHost: example\r\nAccept: */*\r\n\r\n",
+        b"POST /upload/abc HTTP/1.1\r\nHost: h\r\nContent-Type: text/plain\r\nContent-Length: 20\r\n\r\n0123456789abcdefghij",
+        b"PUT /c HTTP/1.1\r\nTransfer-Encoding: chunked\r\n\r\n5\r\nhello\r\na\r\n0123456789\r\n0\r\n\r\n",
+        b"POST /k1 HTTP/1.1\r\nConnection: keep-alive\r\nContent-Length: 5\r\n\r\nhelloGET /k2?x=1 HTTP/1.1\r\nHost: h\r\n\r\n",
+        b"GET /old HTTP/1.0\r\nConnection: keep-alive\r\n\r\nPOST /second HTTP/1.0\r\nContent-Length: 3\r\n\r\nabc",
+        b"DELETE /a/%2e%2e/b?k=v#f HTTP/1.1\r\nX-A: 1\r\nX-B: two words\r\n\r\n",
+        b"OPTIONS /o HTTP/1.1\r\nOrigin: o\r\n\r\nPOST /after-options HTTP/1.1\r\nContent-Length: 4\r\n\r\nbody",
+        b"POST /k3 HTTP/1.1\r\nTransfer-Encoding: chunked\r\n\r\n3\r\nabc\r\n0\r\n\r\nPOST /k4 HTTP/1.1\r\nContent-Length: 2\r\n\r\nhi",
+    ]
+    for _ in range(3 if quick else 40):
+        x = wellformed(rng, keepalive=True, small=True)[:400] + wellformed(rng, small=True)[:400]
+        if ascii_conn_ok(x):
+            canon.append(x)
+    tcpconns = []
+    for ci, x in enumerate(canon):
+        c = []
+        for k in range(len(x) + 1):
+            c.append("srv " + hexs(x[:k]))
+            st["srv_cut"] += 1
+            if ci < 3:
+                c.append("req " + hexs(x[:k]))
+                st["req_cut"] += 1
+            if ci in (1, 3, 7) or (not quick and ci < 12):
+                tcpconns.append(hexs(x[:k]))
+            if len(c) >= 60:
+                cases.append(c)
+                c = []
+        if c:
+            cases.append(c)
+    for i in range(0, len(tcpconns), 4):
+        cases.append(["tcp " + " ".join(tcpconns[i:i + 4])])
+        st["tcp_ops"] += 1
+        st["tcp_connections"] += len(tcpconns[i:i + 4])
+
     # --- chunked bodies with odd chunk-size lines
     c = []
     for sz in [b"-1", b"-5", b"ffffffff", b"fffffffb", b"80000000", b"7fffffff", b"100000000", b"100000005", b"0x5", b"0X5", b" 5", b"+5",
@@ -717,6 +754,188 @@ def reference(line):
     return None
 
 
+
+# ------------------------------------------------------------------ dispatch clause (independent, on the implementation alone)
+#
+# "either drop the connection or hand the application a request whose method, headers, query parameters and body are
+# the ones sent": if the application handler is invoked, the stream *as ended by the peer* must contain a complete
+# framed request for that dispatch (request line with its LF, header block up to the empty line, exactly
+# Content-Length body bytes or a complete chunked body with its terminating chunk), and the fields handed over must
+# be those of that framed request.  `_frame` is a lenient framing parser written from RFC 7230 section 3, not from
+# the code; where the framing of a malformed stream is a matter of interpretation it returns None (no opinion).
+
+_WS0 = (b" ", b"\t", b"\x0b", b"\x0c", b"\r")
+
+
+def _frame(s):
+    """'incomplete' | None (framing not determined by the RFC) | dict(method,target,proto,headers|None,body,used)"""
+    i = s.find(b"\n")
+    if i < 0:
+        return "incomplete"
+    line = s[:i]
+    if b"\x00" in line or len(line) > 16000:
+        return None
+    sp1 = line.find(b" ")
+    sp2 = line.find(b" ", sp1 + 1) if sp1 >= 0 else -1
+    if sp1 < 0 or sp2 < 0:
+        return "incomplete"          # not a request line: nothing may be dispatched
+    method, target, proto = line[:sp1], line[sp1 + 1:sp2], line[sp2 + 1:].strip(b" \t\r\n")
+    pos = i + 1
+    fields = []
+    folded = False
+    while True:
+        j = s.find(b"\n", pos)
+        if j < 0:
+            return "incomplete"      # the empty line never arrived
+        l = s[pos:j]
+        pos = j + 1
+        if len(l) > 16000:
+            return None
+        if l == b"\r":
+            break
+        if b"\x00" in l:
+            return None
+        if l[:1] in _WS0:
+            folded = True
+            continue
+        t = l.strip(b" \t\r\n")
+        c = t.find(b":")
+        if c < 0:
+            return "incomplete"      # a line that is neither a field nor the empty line: the block is not complete
+        fields.append((t[:c], t[c + 1:].strip(b" \t\r\n")))
+    names = [_capital(n) for n, _ in fields]
+    simple = not folded and len(set(names)) == len(names) and all(v for _, v in fields)
+    hd = dict(zip(names, (v for _, v in fields)))
+    if not simple and (b"Content-Length" in names or b"Transfer-Encoding" in names):
+        return None              # which value wins / what a folded line is appended to decides the framing
+    cl = hd.get(b"Content-Length")
+    chunked = hd.get(b"Transfer-Encoding") == b"chunked"
+    body = b""
+    if cl is not None:
+        if cl == b"0":
+            pass
+        elif re.fullmatch(rb"[0-9]{1,9}", cl) and 0 < int(cl) < 2 ** 31 and not chunked:
+            n = int(cl)
+            if len(s) - pos < n:
+                return "incomplete"  # fewer body bytes than announced
+            body = s[pos:pos + n]
+            pos += n
+        else:
+            return None
+    elif chunked:
+        while True:
+            j = s.find(b"\n", pos)
+            if j < 0:
+                return "incomplete"
+            m = re.fullmatch(rb"([0-9a-fA-F]{1,7})\r?", s[pos:j])
+            if not m:
+                return None
+            n = int(m.group(1), 16)
+            pos = j + 1
+            if n == 0:
+                if len(s) - pos < 2:
+                    return "incomplete"      # terminating chunk not complete
+                if s[pos:pos + 2] != b"\r\n":
+                    return None              # trailer fields
+                pos += 2
+                break
+            if len(s) - pos < n + 2:
+                return "incomplete"
+            if s[pos + n:pos + n + 2] != b"\r\n":
+                return None
+            body += s[pos:pos + n]
+            pos += n + 2
+    return {"method": method, "target": target, "proto": proto, "headers": hd if simple else None, "body": body, "used": pos}
+
+
+def _rec_fields(rec):
+    return dict(t.split("=", 1) for t in rec.split(" ") if "=" in t)
+
+
+def _frame_mismatch(fr, rec):
+    """which field of a dispatched record differs from the framed request (None = all equal)"""
+    f = _rec_fields(rec)
+    if f.get("m") != adler_rep(fr["method"]):
+        return "method"
+    if f.get("r") != adler_rep(fr["target"]):
+        return "target"
+    if f.get("pr") != adler_rep(fr["proto"]):
+        return "protocol"
+    if f.get("b") != adler_rep(fr["body"]):
+        return "body"
+    if fr["headers"] is not None:
+        hs = fr["headers"]
+        exp = ";".join("%s:%s" % (hexs(k), adler_rep(hs[k])) for k in sorted(hs)) if hs else "-"
+        if f.get("H") != exp:
+            return "headers"
+    t = fr["target"]
+    if t and t[0:1] not in (b"#", b"?") and b"\x00" not in t:
+        h = t.find(b"#")
+        before = t[:h] if h > 0 else t
+        q = before.find(b"?")
+        raw, qs = (before[:q], before[q + 1:]) if q > 0 else (before, b"")
+        if f.get("q") != adler_rep(qs):
+            return "query string"
+        if _VALID_ESC.match(raw):
+            p = _ref_path(raw)
+            if p is not None and f.get("p") != adler_rep(p):
+                return "path"
+    return None
+
+
+INCOMPLETE_CLAUSE = ("the application was handed a request although the stream, as ended by the peer, does not contain a "
+                     "complete framed request (request line, header block up to the empty line, announced body)")
+MISMATCH_CLAUSE = "the application was handed a request whose %s is not the one of the framed request in the stream"
+
+
+def _dispatch_judge(stream, recs):
+    pos = 0
+    k = 0
+    while k < len(recs):
+        fr = _frame(stream[pos:])
+        if fr is None:
+            return None
+        if fr == "incomplete":
+            return INCOMPLETE_CLAUSE
+        if fr["method"] == b"OPTIONS":
+            pos += fr["used"]        # answered by the server itself, never dispatched
+            continue
+        mm = _frame_mismatch(fr, recs[k])
+        if mm is not None:
+            return MISMATCH_CLAUSE % mm
+        pos += fr["used"]
+        k += 1
+    return None
+
+
+def dispatch_clause(line, out):
+    """the dispatch clause judged on one op line and the implementation's output for it: None or the violated clause"""
+    t = line.split()
+    try:
+        if t[0] == "srv" and len(t) == 2 and out.startswith("n="):
+            return _dispatch_judge(unhex(t[1]), re.findall(r"\[(.*?)\]", out.split(" | ")[0]))
+        if t[0] == "tcp" and len(t) >= 2 and out.startswith("n="):
+            parts = out.split(" || ")
+            if len(parts) != len(t) - 1:
+                return None
+            for h, o in zip(t[1:], parts):
+                c = _dispatch_judge(unhex(h), re.findall(r"\[(.*?)\]", o.split(" | ")[0]))
+                if c:
+                    return c
+            return None
+        if t[0] == "req" and len(t) == 2 and " | " in out:
+            rec, st = out.split(" | ", 1)
+            f = _rec_fields(rec)
+            # HttpServer::serve dispatches what HttpRequest(Socket&) built iff the socket is healthy and these are non-empty
+            if " err=0 closed=0 " in " " + st and not (f.get("m", "0:-").startswith("0:") or f.get("p", "0:-").startswith("0:") or f.get("pr", "0:-").startswith("0:")):
+                if f.get("m") == adler_rep(b"OPTIONS"):
+                    return None
+                return _dispatch_judge(unhex(t[1]), [rec])
+    except Exception:
+        return None
+    return None
+
+
 def oracle(case, impl, model, crash):
     """the property judged on the implementation's behaviour alone"""
     if crash:
@@ -739,9 +958,30 @@ def oracle(case, impl, model, crash):
     lines = [l for l in case if not l.startswith("case")]
     outs = impl[1:] if impl and impl[0] == "case" else impl
     for l, o in zip(lines, outs):
+        c = dispatch_clause(l, o)
+        if c:
+            return True, c
+    for l, o in zip(lines, outs):
         exp = reference(l)
         if exp is not None and o != exp:
             return True, "a well-formed request/target/URL was not handed over as sent (independent reference disagrees)"
+    # The generic shrinker kept *a* divergence, and this one breaks no clause by itself.  Before settling for
+    # "no failing input", look for a stream of this run on which the implementation alone breaks the dispatch clause;
+    # if there is one, this failure is reported with that concrete (shrunk) stream instead of the harmless one.
+    try:
+        seed, tier = _run_params()
+        res = _dispatch_search(_harness(), seed, tier)
+        for l, o, clause in res["found"]:
+            if clause not in res["used"]:
+                res["used"].add(clause)
+                from lib import core
+                mo = core.run_model(DRIVER, ["case 0", l])
+                case[:] = [l]
+                impl[:] = ["case", o]
+                model[:] = mo
+                return True, clause
+    except Exception:
+        pass
     return False, ("implementation and model differ on a malformed stream in a way the property does not constrain; "
                    "the model no longer describes the code, so the theorems no longer apply to it")
 
@@ -753,48 +993,139 @@ PREDICATES = [(" dd=1", "the decoded request path handed to the application cont
               ("negative-length", "a string/array of negative length was produced")]
 
 
-def extra(ctx):
-    """targeted search, only when the correspondence pass saw a failure: judge the property's predicates on the
-    implementation alone over the whole generated set, so that a regression is reported with a concrete failing input
-    (the shrinker of the generic pass keeps *any* divergence, not necessarily one that breaks the property)"""
+def _shrink_stream(exe, line, clause, budget=160):
+    """byte-level ddmin of one op line, keeping the same violated clause (judged on the implementation alone)"""
+    from lib import core
+    t = line.split()
+    if len(t) != 2:
+        return line, None
+    op, b = t[0], unhex(t[1])
+
+    def bad(c):
+        l = op + " " + hexs(c)
+        impl, crash, err = core.run_impl(exe, [l], timeout=60)
+        return bool(impl) and dispatch_clause(l, impl[0]) == clause, (impl[0] if impl else "")
+    best_out = None
+    n = 2
+    trials = 0
+    while len(b) >= 2 and trials < budget:
+        k = max(1, len(b) // n)
+        reduced = False
+        for st in range(0, len(b), k):
+            c = b[:st] + b[st + k:]
+            trials += 1
+            ok, o = bad(c)
+            if ok:
+                b, best_out, reduced = c, o, True
+                n = max(n - 1, 2)
+                break
+            if trials >= budget:
+                break
+        if not reduced:
+            if k == 1:
+                break
+            n = min(n * 2, len(b))
+    return op + " " + hexs(b), best_out
+
+
+_SEARCH = {}     # (seed, tier) -> {"found": [(line, out, clause)], "judged": n, "violations": n, "used": set()}
+
+
+def _run_params():
+    """seed and tier of this run (the engine does not pass them to oracle())"""
+    import os
+    import sys
+    a = sys.argv
+    seed = int(a[a.index("--seed") + 1]) if "--seed" in a else int(os.environ.get("VERIF_SEED", "1"))
+    tier = a[a.index("--tier") + 1] if "--tier" in a else os.environ.get("VERIF_TIER", "quick")
+    return seed, tier
+
+
+def _harness():
+    from lib import core
+    libdir, _ = core.build_lib("asan")
+    return core.build_harness(DRIVER, libdir, "asan")
+
+
+def _dispatch_search(exe, seed, tier, all_predicates=False):
+    """the dispatch clause (and, on request, the other predicates) judged on the implementation alone over every
+    req/srv/tcp stream of the run; one shrunk witness per violated clause"""
     import random
     from concurrent.futures import ThreadPoolExecutor
     from lib import core
-    from lib.engine import Failure, corpus_cases
-    st = ctx["stats"]
-    if st.get("validated", 0) >= st.get("evaluations", 0):
-        return []
-    rng = random.Random(ctx["seed"] * 1000003 + int(ID[1:]))
-    lines = [l for c in corpus_cases(ID) + gen(rng, ctx["tier"]) for l in c if l.split()[0] in ("req", "tg", "srv", "file")]
-    nb = max(1, min(core.NCPU, len(lines) // 2000 or 1))
+    from lib.engine import corpus_cases
+    key = (seed, tier, all_predicates)
+    if key in _SEARCH:
+        return _SEARCH[key]
+    rng = random.Random(seed * 1000003 + int(ID[1:]))
+    ops = ("req", "tg", "srv", "tcp", "file") if all_predicates else ("req", "srv", "tcp")
+    lines = [l for c in corpus_cases(ID) + gen(rng, tier) for l in c if l.split()[0] in ops]
+    nb = max(1, min(core.NCPU, len(lines) // 1000 or 1))
     size = (len(lines) + nb - 1) // nb
     chunks = [lines[i:i + size] for i in range(0, len(lines), size)]
     found = []
+    judged = [0]
 
     def run(ch):
-        impl, crash, err = core.run_impl(ctx["exe"], ch, timeout=600)
+        impl, crash, err = core.run_impl(exe, ch, timeout=900)
         out = []
         for l, o in zip(ch, impl):
-            for pat, clause in PREDICATES:
-                if pat in o:
-                    out.append((len(l), l, o, clause))
-                    break
+            c = dispatch_clause(l, o)
+            if c is None and all_predicates:
+                for pat, clause in PREDICATES:
+                    if pat in o:
+                        c = clause
+                        break
+            if o.startswith("n=") or " | " in o:
+                judged[0] += 1
+            if c:
+                # witnesses through the real server loop (handler really invoked) first, then the shortest
+                out.append(((0 if l.startswith("srv") else 1, len(l)), l, o, c))
         return out
     with ThreadPoolExecutor(max_workers=nb) as ex:
         for r in ex.map(run, chunks):
             found.extend(r)
     found.sort()
-    fails = []
+    wit = []
     seen = set()
     for n, l, o, clause in found:
         if clause in seen:
             continue
         seen.add(clause)
+        if clause == INCOMPLETE_CLAUSE or clause.startswith(MISMATCH_CLAUSE[:40]):
+            l2, o2 = _shrink_stream(exe, l, clause)
+            if o2 is not None:
+                l, o = l2, o2
+        wit.append((l, o, clause))
+    res = {"found": wit, "judged": judged[0], "used": set(),
+           "violations": sum(1 for x in found if x[3] == INCOMPLETE_CLAUSE or x[3].startswith(MISMATCH_CLAUSE[:40]))}
+    _SEARCH[key] = res
+    return res
+
+
+def extra(ctx):
+    """(1) always: the dispatch clause judged on the implementation alone over every req/srv/tcp stream of the run
+    (independent framing parser, see `_frame`); (2) only when the correspondence pass saw a failure: the other
+    predicates of the property over the whole generated set.  Violations are reported with the concrete stream,
+    shrunk bytewise (the shrinker of the generic pass keeps *any* divergence, not necessarily one that breaks the
+    property)."""
+    from lib.engine import Failure
+    st = ctx["stats"]
+    failed = st.get("validated", 0) < st.get("evaluations", 0)
+    res = _dispatch_search(ctx["exe"], ctx["seed"], ctx["tier"], all_predicates=failed)
+    already = set()
+    for k, v in _SEARCH.items():
+        already |= v["used"]
+    fails = []
+    for l, o, clause in res["found"]:
+        if clause in already:
+            continue
         f = Failure("diverge", [l], ["case", o], ["case", "(property predicate)"], clause=clause,
-                    name="property oracle judged on the implementation alone (targeted search over the generated set)")
+                    name="property oracle judged on the implementation alone (dispatch clause / targeted search over the generated set)")
         fails.append(f)
-    st["targeted_search_lines"] = len(lines)
-    return fails[:3]
+    st["dispatch_clause_streams_judged"] = res["judged"]
+    st["dispatch_clause_violations"] = res["violations"]
+    return fails[:4]
 
 
 def simplify_line(line):
